@@ -120,6 +120,32 @@ type resultLeaf struct {
 	At *ssa.BasicBlock
 }
 
+// phiLeaves enumerates the non-phi values a value can take, each with the block whose facts hold when it is chosen.
+func phiLeaves(v ssa.Value) []resultLeaf {
+	var out []resultLeaf
+	seen := map[ssa.Value]bool{}
+	var walk func(v ssa.Value, at *ssa.BasicBlock)
+	walk = func(v ssa.Value, at *ssa.BasicBlock) {
+		if phi, ok := v.(*ssa.Phi); ok {
+			if seen[phi] {
+				return
+			}
+			seen[phi] = true
+			for i, e := range phi.Edges {
+				walk(e, phi.Block().Preds[i])
+			}
+			return
+		}
+		out = append(out, resultLeaf{v, at})
+	}
+	var at *ssa.BasicBlock
+	if in, ok := v.(ssa.Instruction); ok {
+		at = in.Block()
+	}
+	walk(v, at)
+	return out
+}
+
 func resultLeaves(fn *ssa.Function, idx int) []resultLeaf {
 	var out []resultLeaf
 	seen := map[ssa.Value]bool{}
